@@ -320,7 +320,7 @@ func init() {
 			"non-trivial = history with >= 2 option switches, >= 1 filtered Stack and >= 2 stored values (Stack side) or >= 1 refused Stack expression (Condition side); distinct = hash of the literal history.",
 		Assumptions: []string{"no push policy, no read-only flag (those interact with acceptance and are covered by C14/C09); a quarter of the stacks has a capacity, under which skipped Stacks must not consume room", "zero-valued native Stack{} elements are not offered (the statement does not say whether they are 'a Stack'); zero-valued aliases and nil alias pointers convert to nothing and count as ordinary values"},
 		Floors: func(string) map[string]int64 {
-			return map[string]int64{"stack-values-offered-while-set": 1000, "stack-values-offered-while-clear": 1000, "option-switches": 1000, "cond.stack-expression-refused": 100}
+			return map[string]int64{"stack-values-offered-while-set": 1000, "stack-values-offered-while-clear": 1000, "option-switches": 1000, "receiver-offered-to-itself": 50, "cases.with-bystander-goroutines": 3000, "cond.stack-expression-refused": 100}
 		},
 	})
 }
